@@ -60,6 +60,7 @@ type RetryOpts struct {
 	SampleAfterMs       int    `json:"sampleAfterMs,omitempty"`
 	DisconnectAt        string `json:"disconnectAt,omitempty"`
 	Hammer              bool   `json:"hammer,omitempty"`              // background goroutines keep calling Ping, Stats, Client, Handle (race-detector runs)
+	HammerPub           int    `json:"hammerPub,omitempty"`           // that many further goroutines keep submitting QoS 0 publishes / subscribes through the retrying client (race-detector runs only: the extra traffic is not part of the workload the observers know)
 	HammerSleepUs       int    `json:"hammerSleepUs,omitempty"`       // pause between two calls of a hammer goroutine (default 50)
 	ReuseMessage        bool   `json:"reuseMessage,omitempty"`        // the application re-uses one Message value for its publishes (resetting ID, payload, QoS; not Dup)
 	EpilogueLoseSession bool   `json:"epilogueLoseSession,omitempty"` // after quiescence: broker restart (peer close + session lost), settle again
@@ -197,7 +198,7 @@ func runRetry(sc *RetryScenario) *RetryResult {
 	// scenarios without keep-alive pings or hammering callers record well under 100 events (measured); beyond the cap the
 	// client is reconnecting / retransmitting without end
 	maxEvents := 400
-	if sc.Opts.PingMs > 0 || sc.Opts.Hammer {
+	if sc.Opts.PingMs > 0 || sc.Opts.Hammer || sc.Opts.HammerPub > 0 {
 		maxEvents = 3000
 	}
 	waitQuiet := func() bool {
@@ -217,6 +218,31 @@ func runRetry(sc *RetryScenario) *RetryResult {
 
 	hammerStop := make(chan struct{})
 	var hammerWG sync.WaitGroup
+	for k := 0; k < sc.Opts.HammerPub; k++ {
+		k := k
+		hammerWG.Add(1)
+		go func() {
+			defer hammerWG.Done()
+			for n := 0; ; n++ {
+				select {
+				case <-hammerStop:
+					return
+				default:
+				}
+				// no recover here: a panic in a request submitted while another goroutine disconnects is the library's
+				if (n+k)%4 == 3 {
+					cli.Unsubscribe(ctx, "hammer/"+strconv.Itoa(k))
+				} else {
+					cli.Publish(ctx, &mqtt.Message{Topic: "hammer", QoS: mqtt.QoS0, Payload: []byte("h")})
+				}
+				hs := sc.Opts.HammerSleepUs
+				if hs == 0 {
+					hs = 50
+				}
+				time.Sleep(time.Duration(hs) * time.Microsecond)
+			}
+		}()
+	}
 	if sc.Opts.Hammer {
 		for k := 0; k < 3; k++ {
 			k := k
@@ -352,6 +378,7 @@ func runRetry(sc *RetryScenario) *RetryResult {
 			pcancel()
 			rec.Emit(netsim.Event{"e": "AppPing", "res": netsim.ErrClass(perr)})
 		case "cancelconnect":
+			rec.Emit(netsim.Event{"e": "CancelConnect"})
 			connCancel()
 		case "disconnect":
 			// issued asynchronously: the caller may be holding the loop at a gate
